@@ -53,5 +53,11 @@ TEXTS = {
         "level_note": "Trusts the harness's follower-equivalent query handler (h/cluster_lite.go, a copy of what DB.queryForRemote does) and the standalone database as the meaning of the local plan (C01/C06 check that against the reference).",
         "technique": "property-based testing (rapid) driving translation validation (cluster plan vs local plan)",
     },
+    "C10": {
+        "level_text": "Exploration with a differential oracle: generated datasets, partitionings, cluster shapes and queries; the cluster (real replication, routing, follower-side partition re-check, cluster planner and fan-out) is compared with a standalone database, plus exactly-once accounting per partition. Does not establish absence; network transport is C20's.",
+        "design_ref": "DESIGN.md section 4 C10",
+        "level_note": "Trusts the in-process links (h/cluster.go implements the follow contract of server.followSource), the quiescence criteria built on the verif hooks, and the standalone database as oracle (itself checked by C01/C06).",
+        "technique": "property-based testing (rapid), differential oracle against a standalone database",
+    },
 }
 NOT_APPLICABLE = []
